@@ -990,7 +990,7 @@ func insertionReorders(p *Prog, ct *types.Named) bool {
 			if cal == nil || !p.IsLib(cal) {
 				continue
 			}
-			if cal.Name() == "Swap" && len(c.Common().Args) > 0 {
+			if fnName(cal) == "Swap" && len(c.Common().Args) > 0 {
 				if _, ok := recvField(fn, c.Common().Args[0]); ok {
 					return true
 				}
